@@ -79,6 +79,7 @@ func (t *FnTrans) instr(b *ssa.BasicBlock, idx int, in ssa.Instruction, st *Heap
 		t.indexInstr(x, reach)
 	case *ssa.Lookup:
 		t.lookup(x, st, reach)
+		t.siteHook("mapread", x, b, idx+1, st, reach)
 	case *ssa.Slice:
 		t.sliceInstr(x, st, reach)
 	case *ssa.MakeSlice:
